@@ -152,6 +152,7 @@ def instances(tier):
         out.append(inst_plan((3, 1), (1, 3), 2, 3))
         out.append(inst_plan((2, 1), (1, 2), 100, 3, itemsize=3, lim_max=24))
         out.append(inst_plan((1, 1, 2), (1, 2, 1), 100, 3, empty_axes=(0,)))  # an empty array still gets a plan
+        out.append(inst_plan((4,), (3,), 2, 3, itemsize=2, lim_max=8, thr_max=1))  # 1-d, items wider than a byte, degree pass on
         out.append(inst_plan((4,), (2,), 2, 2, lo=0))
         out.append(inst_plan((1, 4), (2, 4), 2, 2, lo=0, thr_max=1, lim_max=1))
         out.append(inst_plan((5,), (3,), 2, 3))  # a 1-d merge deep enough for the degree pass to insert steps
